@@ -103,6 +103,11 @@ func c14W1(b *core.B, r *core.Rng, nProg int) {
 		if err != nil {
 			continue
 		}
+		if pi%4 == 0 {
+			// a fresh Clone that nobody has executed yet: the goroutines below are its first users
+			t = t.Clone()
+			b.Count("W1:fresh-clone-executed-concurrently-first")
+		}
 		parent := progCtx(nil)
 		for _, shared := range []bool{false, true} {
 			mk := func() (*plush.Context, *progEnv) {
@@ -655,7 +660,7 @@ func init() {
 	core.Register(&core.Prop{
 		ID:      "C14",
 		Level:   "exploration",
-		Rule:    "worker processes built with -race (and -tags verif), each sub-workload in its own child process, repeated 5x (quick) / 30x (thorough) because race reports vary from run to run. W1: one parsed template from the shared generator (no mutation of shared data) executed by G in {2,4,8,16,32} goroutines x 3 repetitions, with own root contexts and with child contexts of one shared parent, hook H3 yielding at statement boundaries under a seeded chooser; every result (output, error, side-effect trace) compared with the sequential result. W2: CacheEnabled=true, 4-32 goroutines mixing Render / Parse+Exec / CacheSet+Clone / cold texts over 6 templates, results compared with sequential ones. W4: the layout pattern - per goroutine one execution declaring a contentFor block and a later execution of another template replaying it with contentOf on the same child context of a shared parent, or the block declared once in the shared parent and replayed with per-execution data from its children, 4-32 goroutines. W3: 2-16 goroutines doing Set (unique values) / Value / Has on one context and through its child and grandchild plus New() storms, few keys; in half of the rounds every call is recorded at the client boundary with ticks from one atomic counter and the history (<= 400 operations) is checked for linearizability against a per-key register model with porcupine (timeout -> inconclusive). Oracle for all: every 'WARNING: DATA RACE' block of the process' race log whose innermost frame of either access is plush code is a violation 'race:<f>|<g>'. Non-trivial = a template / round that ran with >= 2 goroutines; evidence reports the maximum number of overlapping Exec calls and the number of distinct interleaving fingerprints observed.",
+		Rule:    "worker processes built with -race (and -tags verif), each sub-workload in its own child process, repeated 5x (quick) / 30x (thorough) because race reports vary from run to run. W1: one parsed template from the shared generator (no mutation of shared data; every fourth one a fresh Clone nobody has executed) executed by G in {2,4,8,16,32} goroutines x 3 repetitions, with own root contexts and with child contexts of one shared parent, hook H3 yielding at statement boundaries under a seeded chooser; every result (output, error, side-effect trace) compared with the sequential result. W2: CacheEnabled=true, 4-32 goroutines mixing Render / Parse+Exec / CacheSet+Clone / cold texts over 6 templates, results compared with sequential ones. W4: the layout pattern - per goroutine one execution declaring a contentFor block and a later execution of another template replaying it with contentOf on the same child context of a shared parent, or the block declared once in the shared parent and replayed with per-execution data from its children, 4-32 goroutines. W3: 2-16 goroutines doing Set (unique values) / Value / Has on one context and through its child and grandchild plus New() storms, few keys; in half of the rounds every call is recorded at the client boundary with ticks from one atomic counter and the history (<= 400 operations) is checked for linearizability against a per-key register model with porcupine (timeout -> inconclusive). Oracle for all: every 'WARNING: DATA RACE' block of the process' race log whose innermost frame of either access is plush code is a violation 'race:<f>|<g>'. Non-trivial = a template / round that ran with >= 2 goroutines; evidence reports the maximum number of overlapping Exec calls and the number of distinct interleaving fingerprints observed.",
 		Assume:  []string{"a clean run means no race on the interleavings observed, not race freedom", "templates do not mutate data reachable from a shared parent (that would be a user-level race)"},
 		Batches: batchesQT(25, 150),
 		Run:     c14Run,
